@@ -802,6 +802,17 @@ impl Director {
                 let entries: Vec<(u64, u64)> = voters.iter().map(|j| (*j, self.tip.round)).collect();
                 let t = run.w.u.mk_tc(round, &entries);
                 self.give(run, Stim::Msg(ConsensusMessage::TC(t))).await;
+                // … and so do a whole quorum of (re-sent) votes and of timeouts for the finished round
+                let d2 = fresh(&mut self.rng);
+                self.give(run, Stim::Digest(d2)).await;
+                for j in &voters {
+                    let v = run.w.u.mk_vote(b.digest(), round, *j);
+                    self.give(run, Stim::Msg(ConsensusMessage::Vote(v))).await;
+                }
+                for j in &voters {
+                    let to = run.w.u.mk_timeout(round, self.tip.clone(), *j);
+                    self.give(run, Stim::Msg(ConsensusMessage::Timeout(to))).await;
+                }
                 if let Some(nb) = self.node_blocks.get(&(round + 1)).cloned() {
                     self.qcs.push(nb.qc.clone());
                     self.tip = nb.qc;
@@ -878,6 +889,29 @@ impl Director {
                 let spliced = run.w.u.mk_block(leader, round, self.tip.clone(), Some(bogus), vec![]);
                 self.give(run, Stim::Msg(ConsensusMessage::Propose(spliced))).await;
                 self.give(run, Stim::Timer).await;
+            }
+            10 => {
+                // (C03 rule 2, second clause) a view change whose TC reports the tip, and a leader that
+                // proposes on top of an OLDER QC with that TC: the block's QC is below the highest QC
+                // the TC reports, so it must not be voted; the proper block (on the tip) then is.
+                let next = run.w.u.leader(round + 1);
+                if next == node || self.qcs.len() < 2 {
+                    return;
+                }
+                let old = self.qcs[self.qcs.len() - 2].clone();
+                if old.round >= self.tip.round {
+                    return;
+                }
+                if let Some(s) = quorum_subset(&run.w.u, &mut self.rng, &others(&run.w.u, node)) {
+                    let entries: Vec<(u64, u64)> = s.iter().map(|j| (*j, self.tip.round)).collect();
+                    let t = run.w.u.mk_tc(round, &entries);
+                    self.give(run, Stim::Msg(ConsensusMessage::TC(t.clone()))).await;
+                    let bad = run.w.u.mk_block(next, round + 1, old, Some(t.clone()), vec![]);
+                    self.blocks.insert(bad.digest().0, bad.clone());
+                    self.give(run, Stim::Msg(ConsensusMessage::Propose(bad))).await;
+                    self.tc = Some(t);
+                    self.round = round + 1;
+                }
             }
             _ => {}
         }
@@ -1036,7 +1070,7 @@ pub fn run_scenario(seed: u64, steps: usize, rep: &mut Report, use_model: bool) 
             batches_known: vec![],
         };
         d.absorb(&mut run);
-        let template = d.rng.gen_range(0, 11u32);
+        let template = d.rng.gen_range(0, 12u32);
         let template_at = d.rng.gen_range(0, steps.max(1) / 2 + 1);
         for step in 0..steps {
             if run.diverged {
